@@ -119,10 +119,47 @@ class C01(Check):
             if eo.startswith('value'): nontriv.add(sl)
             if not core.expect_agrees(co, eo, rel=0.0, stats=stats):
                 viol.append(dict(key=cl, got=co, expected=eo, what='scalar lookup: library vs table cell / macro range'))
-        stats.update(rule='exhaustive: every accessor x Z in [-3,125] x every macro value in [min-3,max+3] x slot modes {E,N}; '
-                          'non-trivial = distinct (accessor, Z, macro) with a positive table cell (a value is expected)',
-                     distinct_nontrivial=len(nontriv), exhaustive=True,
+        # ---- second data configuration: the Kissel table regenerated from data/kissel (tools/regen_kissel.py) -------
+        # (only ElectronConfig reads a Kissel-derived table among the scalar accessors; all are re-run, same code objects)
+        n2 = 0; kis = {}
+        try:
+            suf = ctx.build_kissel_config('real')
+            c2 = ctx.run_c(clines, exe=ctx.sc.path('cdrv' + suf))
+            e2 = ctx.run_model(slines, dump='dump' + suf)
+            n2 = len(clines)
+            for cl, sl, co, eo in zip(clines, slines, c2, e2):
+                if eo.startswith('value') and sl.startswith('spec.ElectronConfig'): nontriv.add(sl + '@real')
+                if not core.expect_agrees(co, eo, rel=0.0, stats=stats):
+                    viol.append(dict(key=cl + '  @real', got=co, expected=eo, what='scalar lookup in the regenerated-Kissel configuration: library vs table cell / macro range'))
+            # the occupation numbers as the RAW files of data/kissel state them (parsed here, independently of regen_kissel.py's writer)
+            import os, glob
+            from vlib.core import REPO
+            kappa = [-1, 1, -2, 2, -3, 3, -4]; base = {1: 0, 2: 1, 3: 4, 4: 9, 5: 16, 6: 23, 7: 28}
+            want = {}
+            for fn in sorted(glob.glob(os.path.join(REPO, 'data', 'kissel', '[0-9][0-9][0-9]_pe*'))):
+                Z = int(os.path.basename(fn)[:3]); inb = False
+                for l in open(fn):
+                    if l.strip() == '*BLOCK:CONFIGURATION': inb = True; continue
+                    if inb and l.startswith(' *** END OF DATA'): break
+                    t = l.split()
+                    if inb and len(t) == 8:
+                        try: n, k, nel = int(t[0]), int(t[1]), float(t[4])
+                        except ValueError: continue
+                        want[(Z, base[n] + (0 if n == 1 else kappa.index(k)))] = nel
+            q = ['ElectronConfig %d %d E' % (Z, sh) for Z in range(1, 121) for sh in range(31)]
+            for l, o in zip(q, ctx.run_c(q, exe=ctx.sc.path('cdrv' + suf))):
+                _, Z, sh, _ = l.split(); w = want.get((int(Z), int(sh)), 0.0)
+                pa = core.parse_answer(o)
+                ok = pa['kind'] == 'ok' and ((w > 0 and pa['slot'] == 'E' and pa['vals'][0] == w) or (w <= 0 and pa['slot'].startswith('F') and pa['vals'][0] == 0))
+                if not ok:
+                    viol.append(dict(key=l + '  @real', got=o, expected=('value %r' % w) if w > 0 else 'fails', what='ElectronConfig vs the CONFIGURATION block of data/kissel/%03d_pe*' % int(Z)))
+            n2 += len(q); kis = dict(electron_config_records=len(want), cells_checked=len(q))
+        except core.BuildError as ex:
+            viol.append(dict(key='regenerated-Kissel configuration', got='does not build: ' + str(ex)[:300], expected='builds', what='data/kissel -> kissel_pe.dat -> prdata'))
+        stats.update(rule='exhaustive: every accessor x Z in [-3,125] x every macro value in [min-3,max+3] x slot modes {E,N}, in both data configurations '
+                          '(Kissel table empty as shipped; Kissel table regenerated from data/kissel); non-trivial = distinct (accessor, Z, macro) with a positive table cell (a value is expected)',
+                     distinct_nontrivial=len(nontriv), exhaustive=True, kissel_regenerated=kis,
                      samples=[dict(call=clines[i], impl=c[i], expected=e[i]) for i in (0, len(clines) // 3, len(clines) // 2)])
-        return len(clines), viol, stats
+        return len(clines) + n2, viol, stats
 
 CHECK = C01()
